@@ -1,6 +1,7 @@
 /- Round-trip lemmas for the leaf codecs of Model/Sem.lean. -/
 import WowVerif.Model.Sem
 import WowVerif.Lemmas.Bytes
+import WowVerif.Lemmas.SemIter
 namespace WowVerif.Sem
 
 theorem decInt_encInt (k : Nat) (e : Endian) (n : Nat) (b rest : Bytes) (h : encInt k e n = some b) :
@@ -77,6 +78,184 @@ theorem bitsToNat_lt (m : List Bool) : bitsToNat m < 2 ^ m.length := by
   induction m with
   | nil => simp [bitsToNat]
   | cons x m ih => simp only [bitsToNat, List.length_cons, Nat.pow_succ]; cases x <;> simp <;> omega
+
+/-! ### built-in types (achievement arrays, spline lists) -/
+
+theorem rtB (l : BLeaf) (n : Nat) (b rest : Bytes) (h : encB l n = some b) : decB l (b ++ rest) = .ok (n, rest) := by
+  cases l with
+  | u32 => simp only [encB] at h; simp [decB, decInt_encInt 4 .le n b rest h]
+  | pg =>
+    simp only [encB] at h
+    split at h
+    · rename_i hn
+      simp only [Option.some.injEq] at h
+      subst h
+      have hlen : (packBytes (encLE 8 n)).1.length = 8 := by rw [packBytes_length]; simp
+      have hlt : bitsToNat (packBytes (encLE 8 n)).1 < 256 := by
+        have := bitsToNat_lt (packBytes (encLE 8 n)).1; rw [hlen] at this; simpa using this
+      have hbits : natToBits 8 (UInt8.ofNat (bitsToNat (packBytes (encLE 8 n)).1)).toNat = (packBytes (encLE 8 n)).1 := by
+        rw [UInt8.toNat_ofNat', Nat.mod_eq_of_lt hlt]
+        have := natToBits_bitsToNat (packBytes (encLE 8 n)).1
+        rwa [hlen] at this
+      simp only [decB, List.cons_append, hbits, unpack_pack, decLE_encLE 8 n hn]
+    · cases h
+  | bool32 =>
+    simp only [encB] at h
+    split at h
+    · rename_i hn
+      have : (if n = 0 then 0 else 1) = n := by split <;> omega
+      simp [decB, decInt_encInt 4 .le n b rest h, this]
+    · cases h
+  | dt =>
+    simp only [encB] at h
+    split at h
+    · rename_i hn
+      simp [decB, decInt_encInt 4 .le n b rest h, hn.2]
+    · cases h
+
+theorem rtBs : ∀ (ls : List BLeaf) (vs : List Val) (b rest : Bytes), encBs ls vs = some b →
+    decBs ls (b ++ rest) = .ok (vs, rest)
+  | [], [], b, rest, h => by simp only [encBs, Option.some.injEq] at h; subst h; simp [decBs]
+  | [], _ :: _, b, rest, h => by simp [encBs] at h
+  | l :: ls, [], b, rest, h => by simp [encBs] at h
+  | l :: ls, v :: vs, b, rest, h => by
+    cases v with
+    | nat n =>
+      simp only [encBs] at h
+      cases h1 : encB l n with
+      | none => simp [h1] at h
+      | some b1 =>
+        cases h2 : encBs ls vs with
+        | none => simp [h1, h2] at h
+        | some b2 =>
+          simp only [h1, h2, Option.some.injEq] at h
+          subst h
+          simp only [decBs, List.append_assoc, rtB l n b1 (b2 ++ rest) h1, rtBs ls vs b2 rest h2]
+    | _ => simp [encBs] at h
+
+theorem rtSent (ls : List BLeaf) : ∀ (vs : List Val) (b rest : Bytes) (fuel : Nat), encSent ls vs = some b → vs.length < fuel →
+    decSent ls fuel (b ++ rest) = .ok (vs, rest)
+  | [], b, rest, fuel, h, hf => by
+    cases fuel with
+    | zero => omega
+    | succ fuel =>
+      simp only [encSent] at h
+      simp [decSent, decInt_encInt 4 .le sentinelId b rest h]
+  | v :: vs, b, rest, fuel, h, hf => by
+    cases fuel with
+    | zero => simp at hf
+    | succ fuel =>
+      cases v with
+      | tuple fs0 =>
+        cases fs0 with
+        | nil => simp [encSent] at h
+        | cons f0 fs =>
+          cases f0 with
+          | nat id =>
+            simp only [encSent] at h
+            split at h
+            · rename_i hid
+              cases h1 : encBs ls fs with
+              | none => simp [h1] at h
+              | some b1 =>
+                cases h2 : encSent ls vs with
+                | none => simp [h1, h2] at h
+                | some b2 =>
+                  simp only [h1, h2, Option.some.injEq] at h
+                  subst h
+                  have hid' : id < 256 ^ 4 := by simp [sentinelId] at hid; omega
+                  have he : encInt 4 .le id = some (encLE 4 id) := by simp [encInt, hid']
+                  have hd := decInt_encInt 4 .le id (encLE 4 id) (b1 ++ b2 ++ rest) he
+                  have hne : ¬ id = sentinelId := by omega
+                  have hr := rtSent ls vs b2 rest fuel h2 (by simp at hf; omega)
+                  simp only [decSent, List.append_assoc] at hd ⊢
+                  simp only [hd, hne, if_false, rtBs ls fs b1 (b2 ++ rest) h1, hr]
+            · cases h
+          | _ => simp [encSent] at h
+      | _ => simp [encSent] at h
+
+theorem encSent_length (ls : List BLeaf) : ∀ (vs : List Val) (b : Bytes), encSent ls vs = some b → 4 * (vs.length + 1) ≤ b.length
+  | [], b, h => by simp only [encSent] at h; simp [encInt_length 4 .le _ b h]
+  | v :: vs, b, h => by
+    cases v with
+    | tuple fs0 =>
+      cases fs0 with
+      | nil => simp [encSent] at h
+      | cons f0 fs =>
+        cases f0 with
+        | nat id =>
+          simp only [encSent] at h
+          split at h
+          · cases h1 : encBs ls fs with
+            | none => simp [h1] at h
+            | some b1 =>
+              cases h2 : encSent ls vs with
+              | none => simp [h1, h2] at h
+              | some b2 =>
+                simp only [h1, h2, Option.some.injEq] at h
+                subst h
+                have := encSent_length ls vs b2 h2
+                simp; omega
+          · cases h
+        | _ => simp [encSent] at h
+    | _ => simp [encSent] at h
+
+theorem rtTuple (ls : List BLeaf) (v : Val) (b rest : Bytes) (h : tupleOf ls v = some b) : decTuple ls (b ++ rest) = .ok (v, rest) := by
+  cases v with
+  | tuple fs => simp only [tupleOf] at h; simp [decTuple, rtBs ls fs b rest h]
+  | _ => simp [tupleOf] at h
+
+theorem rtSplines (vs : List Val) (b rest : Bytes) (h : encSplines vs = some b) : decSplines (b ++ rest) = .ok (vs, rest) := by
+  cases vs with
+  | nil =>
+    simp only [encSplines] at h
+    simp [decSplines, decInt_encInt 4 .le 0 b rest h]
+  | cons p ps =>
+    simp only [encSplines] at h
+    cases h0 : encInt 4 .le (ps.length + 1) with
+    | none => simp [h0] at h
+    | some c =>
+      cases h1 : tupleOf [.u32, .u32, .u32] p with
+      | none => simp [h0, h1] at h
+      | some b1 =>
+        cases h2 : iterEnc (tupleOf [.u32]) ps with
+        | none => simp [h0, h1, h2] at h
+        | some b2 =>
+          simp only [h0, h1, h2, Option.some.injEq] at h
+          subst h
+          have hd := decInt_encInt 4 .le (ps.length + 1) c (b1 ++ b2 ++ rest) h0
+          have ht := rtTuple [.u32, .u32, .u32] p b1 (b2 ++ rest) h1
+          have hi := iterDec_iterEnc (tupleOf [.u32]) (decTuple [.u32]) ps
+            (fun v b' rest' _ hv => rtTuple [.u32] v b' rest' hv) b2 rest h2
+          simp only [decSplines, List.append_assoc] at hd ⊢
+          simp only [hd, ht, hi]
+
+theorem rtPrim (name : String) (v : Val) (b rest : Bytes) (h : encPrim name v = some b) :
+    decPrim name (b ++ rest) = .ok (v, rest) := by
+  unfold encPrim at h
+  unfold decPrim
+  cases hk : primKind name with
+  | achDone =>
+    cases v with
+    | list vs =>
+      simp only [hk] at h
+      have hl := encSent_length achDoneFields vs b h
+      simp only [rtSent achDoneFields vs b rest ((b ++ rest).length + 1) h (by simp; omega)]
+    | _ => simp [hk] at h
+  | achProg =>
+    cases v with
+    | list vs =>
+      simp only [hk] at h
+      have hl := encSent_length achProgFields vs b h
+      simp only [rtSent achProgFields vs b rest ((b ++ rest).length + 1) h (by simp; omega)]
+    | _ => simp [hk] at h
+  | splines =>
+    cases v with
+    | list vs =>
+      simp only [hk] at h
+      simp only [rtSplines vs b rest h]
+    | _ => simp [hk] at h
+  | other => cases v <;> simp [hk] at h
 
 /-- **leaf round trip**: a leaf decodes its own encoding and leaves the rest of the stream untouched -/
 theorem decLeaf_encLeaf (l : Leaf) (v : Val) (b rest : Bytes) (h : encLeaf l v = some b) :
@@ -177,6 +356,8 @@ theorem decLeaf_encLeaf (l : Leaf) (v : Val) (b rest : Bytes) (h : encLeaf l v =
         rwa [hlen] at this
       simp only [decLeaf, List.cons_append, hbits, unpack_pack, decLE_encLE 8 n hn]
     · cases h
-  | prim nm => cases v <;> simp [encLeaf] at h
+  | prim nm =>
+    have h' : encPrim nm v = some b := by cases v <;> simpa [encLeaf] using h
+    simp only [decLeaf, rtPrim nm v b rest h']
 
 end WowVerif.Sem
